@@ -66,7 +66,41 @@ ENGINE CHANGES (additive): pyvc/comprehension.py `_listcomp_flat1` ([e for x in 
 unsupported) and in `_element` the inner iterable may be an external collection the `iter` hook gives a fixed length; pyvc/builtins.py
 `bi_float`: float("nan") goes to the new hook "float_nan" (unsupported without it; it used to crash the z3 numeral parser).
 
-MUTANTS (one case each, short budgets; each NOT verified; the obligation that broke) - see the list at the end of this docstring.
+ALSO PROVED: MetaboliteSummary.__init__ (hooks HOOKS_INIT): self._metabolite = the copy of the metabolite; self._reactions holds the
+copy of every member of the frozenset metabolite.reactions exactly once (length = cardinality; member x's copy stands at position
+inv[pos[x]] of the ghost enumeration / sorted permutation; every entry is the copy of a member); _generate (applied by its contract: its
+frame condition leaves _reactions / _metabolite alone) is called exactly once with (model, solution, fva) as given.  Summary.__init__ is
+ASSUMED (three lines; zero-argument super() in an inherited __init__ is beyond the engine).
+
+MUTANTS (the text replacement of tools/mutate_and_run.sh through a one-case wrapper with short budgets; each is NOT verified - the
+obligation(s) that went unknown / sat, by clause name):
+  model_summary.py
+    M1  `negative = flux["factor"] < 0` -> `> 0`                                          minimum, maximum
+    M2  `flux.loc[negative, "minimum"] = tmp` -> `= flux.loc[negative, "maximum"]`        minimum, range-as-stated
+    M3  `flux["flux"] *= flux["factor"]` -> `pass`                                        flux, uptake:listed-iff, secretion:listed-iff
+    M4  is_produced: `(flux["factor"] > 0)` -> `< 0`                                      uptake:listed-iff, exactly-one-side
+    M5  data tuple `solution[rxn.id]` -> `solution[met.id]`                               flux, uptake / secretion:listed-iff
+    M7  `fraction_of_optimum=fva` -> `=1.0`                                               post (call shape: False; sat)
+    M8  the seeded one: the three swap lines -> `flux.loc[negative, ["minimum", "maximum"]] = flux.loc[negative, ["maximum", "minimum"]]`
+        (a LABELLED right-hand side is aligned on the column labels: a no-op)             minimum, maximum, range-as-stated
+    M8' the same with `.values` (positional: a real swap) VERIFIES, as it must
+    M9  `tmp = flux.loc[negative, "maximum"]` -> `tmp = flux["maximum"]` (a possible view bound to a name at a write)
+                                                                                          refused by the setitem hook (Unsupported)
+    M10 `index=[r.id for r in self._boundary]` -> `[m.id for m in self._boundary_metabolites]`   label
+    M13 `solution[rxn.id] * coef` -> `+ coef` (objective)                                 objective summand
+  metabolite_summary.py
+    T2  `consumption = self.consuming_flux["flux"].abs()` -> `self.producing_flux[...]`   refused by the interpreter (rows missing: NaN)
+    T3  `r.get_coefficient(self._metabolite.id)` -> `(r.id)`                              factor, flux, producing / consuming:listed-iff, exactly-one-side
+    T4  `reaction_list=[r.id for r in self._reactions]` -> `... self._reactions[1:]]`     FVA reaction list
+    T5  `flux.loc[negative, "maximum"] = flux.loc[negative, "minimum"]` -> `= ...["maximum"]`    maximum, range-as-stated
+    T6  `.mul(flux["factor"], axis=0)` -> `.mul(flux["flux"], axis=0)`                    minimum, maximum, range-as-stated
+    T7  `is_produced = (flux["flux"] > 0)` -> `>= 0`                                      producing:listed-iff, exactly-one-side
+    T9  a second `solution = pfba(model)`                                                 post (call shape: False; sat)
+    T10 `self.consuming_flux = ....copy()` -> `= self.producing_flux` (two names, one frame)      refused by the setitem hook
+    T8  (equivalent: `self._flux = flux` also BEFORE the percent columns are written - another frame) verifies, as it must
+    I1  __init__: `r.copy() for r in sorted(...)` -> `r for r in sorted(...)`             members' copies (post.3, post.4)
+    I2  __init__: `self._generate(model, solution, fva)` -> `(model, solution, None)`     pass-through of fva (case fva=float; equivalent for fva=None)
+    I3  __init__: `self._reactions = self._reactions[1:]` before the call                 length / members
 """
 import z3
 import cobra  # noqa
@@ -665,7 +699,7 @@ def _the_perm(st):
     return ps[0] if len(ps) == 1 else None
 
 
-def _row_clauses(rows, flux_t, side_ts, side_names, r_id, fac, raw, tol, ranges, label_ok=None):
+def _row_clauses(rows, flux_t, side_ts, side_names, r_id, fac, raw, tol, ranges):
     """the clauses about ONE row of the flux table `flux_t` and of the two sides: shared by the model and the metabolite summary"""
     F = rows.frame(flux_t)
     cs = []
@@ -783,6 +817,10 @@ def _cases(post):
 REG.add(Contract(MM, "ModelSummary._generate", "C20",
                  [("self", _ms_self()), ("model", _model_t()), ("solution", TNone()), ("fva", TNone())],
                  _cases(_ms_post), key="ModelSummary._generate", axioms=lambda E: copy_axioms(),
+                 note="precondition: finite model.tolerance; every element of model.boundary has exactly ONE metabolite (the definition "
+                      "of Reaction.boundary: the iteration `for met in rxn.metabolites` yields one element); in-place frame updates as "
+                      "functional updates of the one name holding the frame (checked at every write); row-wise pandas semantics and "
+                      "the copy contract assumed (pandas.rowwise, cobra.copy@summary)",
                  pre=lambda E: E.s0.objs[E["model"].oid]["attr:tolerance"].k == 0,
                  modifies=lambda E: [("obj", E["self"]), ("ghost", "ms_calls", lambda st: ()), ("ghost", "df_calls", lambda st: ()),
                                      ("ghost", "lrc_calls", lambda st: ())]))
@@ -857,6 +895,9 @@ def _mt_post(E):
 REG.add(Contract(MT, "MetaboliteSummary._generate", "C20",
                  [("self", _mt_self()), ("model", _model_t()), ("solution", TNone()), ("fva", TNone())],
                  _cases(_mt_post), key="MetaboliteSummary._generate", axioms=lambda E: copy_axioms(),
+                 note="precondition: finite model.tolerance; in-place frame updates as functional updates of the one name holding the "
+                      "frame (checked at every write); row-wise pandas semantics and the copy contract assumed (pandas.rowwise, "
+                      "cobra.copy@summary)",
                  pre=lambda E: E.s0.objs[E["model"].oid]["attr:tolerance"].k == 0,
                  modifies=lambda E: [("attr", E["self"], a, lambda st: (st, N.VNp(fresh("np:summary_frame", N.NP))))
                                      for a in ("producing_flux", "consuming_flux", "_flux")]
